@@ -127,6 +127,9 @@ theorem inv_step (P : Params) (hP : P.Good) (s s' : State) (e : Event) (h : Inv 
   | start hsOk =>
     simp only [step, Option.some.injEq] at hs; subst hs
     exact (doStart_spec P hP s hsOk h).1
+  | startRaced hsOk =>
+    have : P.startAtomic = true := hP.2.2.2.2.2.2
+    simp [step, this] at hs
   | client hsOk connOk =>
     simp only [step] at hs
     obtain ⟨_, hi, _⟩ := doStart_spec P hP s hsOk h
@@ -218,6 +221,11 @@ theorem doClient_launch (P : Params) (s : State) (b : Bool) : (doClient P s b).1
 theorem step_launch (P : Params) (s s' : State) (e : Event) (hs : step P s e = some s') : s'.launch = s.launch := by
   cases e with
   | start b => simp only [step, Option.some.injEq] at hs; subst hs; simp [emit, doStart_launch]
+  | startRaced b =>
+    simp only [step] at hs
+    split at hs
+    · simp at hs
+    · simp only [Option.some.injEq] at hs; subst hs; simp [emit, doStart_launch]
   | client a b =>
     simp only [step] at hs
     cases hds : doStart P s a with
@@ -348,8 +356,17 @@ theorem step_procs_norunner (P : Params) (s s' : State) (e : Event) (t : Bool) (
     intro s0 b; unfold doClient
     repeat' split
     all_goals simp_all
+  have hds' : ∀ b, (doStart P { s with addr := none, attempted := false } b).1.procs = s.procs := by
+    intro b; unfold doStart; simp only [hl]
+    repeat' split
+    all_goals simp_all
   cases e with
   | start b => simp only [step, Option.some.injEq] at hs; subst hs; simp [emit, hds]
+  | startRaced b =>
+    simp only [step] at hs
+    split at hs
+    · simp at hs
+    · simp only [Option.some.injEq] at hs; subst hs; simp [emit, hds']
   | client a b =>
     simp only [step] at hs
     have h1 := hds a
